@@ -115,7 +115,7 @@ func SoloMain(args []string) {
 	selfDestruct(soloTimeout + 5*time.Second)
 	env := &nopEnv{}
 	res := RunJob(GenJob(seed), env, full)
-	res.Yields = env.yields + hookPointsOutsideWorld
+	res.Yields = env.yields + hookPointsOutsideWorld.Load()
 	b, _ := json.Marshal(res)
 	os.Stdout.Write(b)
 }
